@@ -5,6 +5,7 @@
 // (the member is called on the source, then on the copy).
 //   VF_T    element type (double | int), VF_INT 1 if int
 //   VF_N    number of elements (compile time)
+//   VF_OP   member selected in VF_SET 1 (0 erase(pos), 1 erase(first,last), 2 insert(pos,first,last))
 //   VF_SET  0: members called the way a non-const object is normally used
 //           1: members that take const_iterator positions, positions taken from cbegin()/cend()
 //           2: const members that hand out mutable access (getVector, getVectorPtr)
@@ -209,12 +210,15 @@ extern "C" void k_cow()
 
 #if VF_SET == 1
   // positions given as const_iterator obtained from the const accessors (cbegin/cend): legal
-  // arguments of erase/insert as declared; the vector is shared when the member is entered
+  // arguments of erase/insert as declared; the vector is shared when the member is entered.
+  // One member per kernel (VF_OP): an execution ends at the first undefined operation.
+#if VF_OP == 0
   for (int i = 0; i < N; i++)
-  {
     SCEN("erase(cbegin+i)", { A.erase(A.cbegin() + i); WROTE(A._v->size() == N - 1, "erase(cbegin+i)"); })
+#elif VF_OP == 1
+  for (int i = 0; i < N; i++)
     SCEN("erase(cbegin+i,cend)", { A.erase(A.cbegin() + i, A.cend()); WROTE(A._v->size() == (size_t)i, "erase(cbegin+i,cend)"); })
-  }
+#else
   for (int i = 0; i <= N; i++)
   {
     SCEN("insert(cbegin+i,first,last)", {
@@ -223,6 +227,7 @@ extern "C" void k_cow()
       WROTE(A._v->size() == N + 2 && (*A._v)[i] == w, "insert(cbegin+i,first,last)");
     })
   }
+#endif
 #endif
 
 #if VF_SET == 2
